@@ -328,14 +328,15 @@ def stateNeeded (e : Event) : Needed :=
       let av := (decString (lookupField kvs b!"join_authorised_via_users_server")).val
       let base : List Bytes := [e.sender] ++ (match e.stateKey with | some k => [k] | none => [])
       let jr := m == b!"join" || m == b!"knock" || m == b!"invite"
+      -- the authorising user is named before the third-party token is looked at (e67b893)
+      let members := base ++ (if av.isEmpty then [] else [av])
       match tp with
       | some s =>
         if s.token.isEmpty then
           -- thirdPartyInviteToken fails: accumulateStateNeeded returns after the fields set so far
-          { create := true, powerLevels := true, member := base, joinRules := jr }
-        else { create := true, powerLevels := true, member := base ++ (if av.isEmpty then [] else [av]),
-               joinRules := jr, thirdPartyInvite := [s.token] }
-      | none => { create := true, powerLevels := true, member := base ++ (if av.isEmpty then [] else [av]), joinRules := jr }
+          { create := true, powerLevels := true, member := members, joinRules := jr }
+        else { create := true, powerLevels := true, member := members, joinRules := jr, thirdPartyInvite := [s.token] }
+      | none => { create := true, powerLevels := true, member := members, joinRules := jr }
   else { create := true, powerLevels := true, member := [e.sender] }
 
 /-! ## Iterative auth checks -/
